@@ -44,9 +44,12 @@ type peerSpec struct {
 	Status2At   int        `json:"s2at,omitempty"`
 	// Flaky: answers every request until its outstanding requests have dropped to zero at least once (it has served a
 	// whole batch), and nothing it is asked afterwards
-	Flaky  bool      `json:"flaky,omitempty"`
-	JoinAt int       `json:"join,omitempty"` // driver tick at which the peer connects (0: from the start)
-	Push   *pushSpec `json:"push,omitempty"` // pushes unsolicited blocks for heights requested from OTHER peers
+	Flaky bool `json:"flaky,omitempty"`
+	// LeaveAfter > 0: the peer closes its connection that many ticks after its first non-canonical block went out
+	// (hit and run: the node sees the connection drop while it may still be verifying the block)
+	LeaveAfter int       `json:"leave,omitempty"`
+	JoinAt     int       `json:"join,omitempty"` // driver tick at which the peer connects (0: from the start)
+	Push       *pushSpec `json:"push,omitempty"` // pushes unsolicited blocks for heights requested from OTHER peers
 }
 
 // pushSpec: whenever the node sends a BlockRequest for a height >= initial+From to some other peer, this peer pushes
@@ -242,6 +245,11 @@ func genScenario(t *rapid.T, reactor string, thorough bool) *scenario {
 			} else {
 				ps.Resp[ps.StatusArg].Kind = rapid.SampledFrom(commitLies).Draw(t, "ncommit")
 			}
+		}
+		if ps.Status != "narrow" && rapid.IntRange(0, 5).Draw(t, "hitandrun") == 0 {
+			// hit and run: a bulky wrong block (verification takes a while), then the connection is closed
+			ps.Resp[rapid.IntRange(0, n-1).Draw(t, "bulkyat")].Kind = "tx-tamper-bulky"
+			ps.LeaveAfter = rapid.IntRange(1, 40).Draw(t, "leaveafter")
 		}
 		if useCoalition {
 			ps.Resp[sc.Coalition.Target].Kind = "quorum-invalid"
